@@ -253,5 +253,11 @@ func c14Stream(r *hx.Rand, tier string, n int, w *bufio.Writer) map[string]int {
 			emit(l)
 		}
 	}
+	// the endpoints that consume assertions, on multi-issuer providers (c14ep.go)
+	nh := n / 40
+	if nh < 1 {
+		nh = 1
+	}
+	c14EndpointStream(r, tier, nh, w, &caseNo, stats, sy)
 	return stats
 }
